@@ -8,4 +8,5 @@ Extraction "codec_model.ml"
   encode_uint encode_uint_desc encode_int encode_int_desc
   decode_uint decode_uint_desc decode_int decode_int_desc
   encode_uvarint decode_uvarint encode_varint decode_varint
-  encode_cmp_uvarint encode_cmp_varint decode_cmp_uvarint decode_cmp_varint decode_cmp_varint_gen.
+  encode_cmp_uvarint encode_cmp_varint decode_cmp_uvarint decode_cmp_varint decode_cmp_varint_gen
+  mvcc_encode mvcc_decode mem_encode_key mem_decode_key.
